@@ -61,6 +61,7 @@ def _cases(draw):
     return {"seq": seq, "dt": dt, "mod": mod,
             "evals": [draw(gen.eval_time_sets(4)) for _ in range(draw(st.integers(1, 2)))],
             "default_evals": draw(st.one_of(st.none(), gen.eval_time_sets(3))),
+            "default_pos": draw(st.integers(0, 2)),
             "noise": draw(st.sampled_from([None, None, "spam", "amp", "dephasing"] if basis != "XY" else [None, None, "dephasing"])),
             "n_traj": draw(st.one_of(st.just(1), st.integers(1, 50))),
             "backend": draw(st.sampled_from(["sv", "mps"])),
@@ -93,7 +94,8 @@ def check_case(case) -> Result:
     if case["default_evals"] is not None:
         import pulser.backend as pb
 
-        obs.append(pb.CorrelationMatrix())
+        # an observable relying on the config's default evaluation times, at a generated position in the list
+        obs.insert(min(case.get("default_pos", 2), len(obs)), pb.CorrelationMatrix())
     kw = dict(dt=case["dt"], observables=obs, with_modulation=case["mod"], n_trajectories=case["n_traj"])
     if nm is not None:
         kw["noise_model"] = nm
